@@ -145,3 +145,28 @@ pub fn long_doc(lang: &str, tokens: usize, slack: usize, tail: &str) -> (String,
     }
     (prefix, tail.to_string())
 }
+
+/// Punctuation marks and symbols: every char of the listed Unicode blocks that is neither alphanumeric nor
+/// whitespace (nor the two word-internal marks `-` and `'`). Used where a property speaks of "punctuation".
+pub fn symbol_chars() -> &'static [char] {
+    static V: std::sync::OnceLock<Vec<char>> = std::sync::OnceLock::new();
+    V.get_or_init(|| {
+        let ranges: [(u32, u32); 22] = [
+            (0x21, 0x2F), (0x3A, 0x40), (0x5B, 0x60), (0x7B, 0x7E), (0xA1, 0xAC), (0xAE, 0xBF), (0xD7, 0xD7), (0xF7, 0xF7),
+            (0x2010, 0x2027), (0x2030, 0x205E), (0x20A0, 0x20BF), (0x2100, 0x214F), (0x2190, 0x23FF), (0x2500, 0x27BF),
+            (0x2E00, 0x2E4F), (0x3001, 0x3003), (0x3008, 0x3011), (0xFF01, 0xFF0F), (0xFF1A, 0xFF20), (0xFF3B, 0xFF40), (0xFF5B, 0xFF65),
+            (0x1F600, 0x1F64F),
+        ];
+        let mut v = vec![];
+        for (a, b) in ranges {
+            for u in a..=b {
+                if let Some(c) = char::from_u32(u) {
+                    if !c.is_alphanumeric() && !c.is_whitespace() && !c.is_control() && c != '-' && c != '\'' {
+                        v.push(c);
+                    }
+                }
+            }
+        }
+        v
+    })
+}
